@@ -64,6 +64,7 @@ class Findings:
             if fixed_root_full: self.op_known = "fixed-root-full-writezero"
             elif nospace: self.op_known = "nospace-during-entry-write"
             elif v and v[0] == "bad" and v[1] == "158": self.op_known = "dir-moved-into-itself"
+            elif jd.marks.get(oi) == "respell" and o.kind == "ok": self.op_known = "rename-respell-noop"
             if v and v[0] == "bad":
                 code = int(v[1])
                 obs = "tree" if code in NAMESPACE_CODES else "file"
@@ -80,9 +81,7 @@ class Findings:
                     self.collect_wf(oi, seen_issues, fixed_root_full, nospace, name, o)
                     return
             if oi in jd.mismatch:
-                known = None
-                if fixed_root_full: known = "fixed-root-full-writezero"
-                elif nospace: known = "nospace-during-entry-write"
+                known = self.op_known
                 self.add("match", "after %s the decoded image differs from the abstract tree (names, kinds, sizes or contents)" % short(o.line), oi, known)
                 # one report per script: later ops would only repeat it
                 self.stop_at = oi
